@@ -42,13 +42,21 @@ G3 = ["S|a|8|*", "S|b|8|*", "S|c|8|*", "S|d|8|*", "S|e|8|*", "S|x|8|*",
       "E|ab|a+|b+|6|8$|0|2|*", "E|bc|b+|c+|6|8$|0|2|*", "E|ad|a-|d+|0|2|0|2|*", "E|ce|c+|e+|6|8$|0|2|*",
       "E|*|b+|d+|5|8$|0|3|*", "E|*|e+|a+|5|8$|0|3|*", "E|*|a+|c+|3|4|3|4|*", "E|*|a+|c+|3|4|3|4|*",
       "E|*|d+|e+|0|8$|2|5|*", "E|*|e+|x+|6|8$|0|2|*"]
-GRAPHS = [G1, G2, G3]
+#  G4: CYCLES of named dovetails written exit -> entry, exactly one edge per adjacent pair:
+#  a+ -> b+ -> c+ -> d+ -> a+ with the chords b+ -> a+ and c+ -> a+ (so that a path can be walked
+#  again right after itself: a+ b+ | a+ b+), and an internal alignment ei between b and d (no
+#  dovetail joins b and d)
+G4 = ["S|a|8|*", "S|b|8|*", "S|c|8|*", "S|d|8|*",
+      "E|e1|a+|b+|6|8$|0|2|*", "E|e2|b+|a+|6|8$|0|2|*", "E|e3|b+|c+|6|8$|0|2|*", "E|e4|c+|a+|6|8$|0|2|*",
+      "E|e5|c+|d+|6|8$|0|2|*", "E|e6|d+|a+|6|8$|0|2|*", "E|ei|b+|d+|3|4|3|4|*"]
+GRAPHS = [G1, G2, G3, G4]
 SEGS = ["a", "b", "c", "d"]
 SEGS3 = ["a", "b", "c", "d", "e"]
 EDGES = [["e1", "e2", "e3", "e4", "e5", "e6", "e7"],
          ["e1", "e2", "e3", "e4", "e5", "e6", "e7", "es", "eh", "ea", "e9"],
-         ["ab", "bc", "ad", "ce"]]
-GROUP_IDS = ["o", "p", "q", "u", "v", "w"]
+         ["ab", "bc", "ad", "ce"],
+         ["e1", "e2", "e3", "e4", "e5", "e6", "ei"]]
+GROUP_IDS = ["o", "p", "q", "u", "v", "w", "r", "s", "t"]
 UNDEF = "zz"
 
 TAGSETS = [[], ["xx:i:1"], ["yy:i:2"], ["xx:i:2"], ["xx:i:1", "yy:i:2"]]   # TLA index = position + 1
@@ -64,7 +72,7 @@ class Catalogue:
     def __init__(self):
         self.items = []          # [{"id","o"}]
         self.index = {}
-        for name in SEGS3 + ["x"] + EDGES[1] + EDGES[2] + GROUP_IDS + [UNDEF]:
+        for name in SEGS3 + ["x"] + EDGES[1] + EDGES[2] + ["ei"] + GROUP_IDS + [UNDEF]:
             for o in ("+", "-", ""):
                 self.index[name + o] = len(self.items) + 1
                 self.items.append({"id": name, "o": o})
@@ -203,6 +211,46 @@ def families(tier):
                                          slot("U", "v", C.ix("b w u"), 1, 2),
                                          slot("U", "w", C.ix("c u v") if q else C.ix("c u v d"), 1, 2)],
                        orders="id" if q else "all", arrs=(1,) if q else (1, 2), nsh=1 if q else 6))
+    # F6: a nested path that is reached MORE THAN ONCE (graph with cycles, G4): as siblings
+    # (o = q+ q+; p = q+ q-), through different branches (o = p+ q+ with p = q+ b+ ...), through
+    # two different intermediate paths (o = r+ s+, r = q+, s = q+ a+).  kind "repeat": TLC keeps
+    # the cases in which the expansion of o comes to some path at least twice and o still has
+    # a walk (or is ambiguous)
+    g4q = C.ix("a+ b+ e1+ e2+ a- b-") if q else C.ix("a+ b+ c+ e1+ e2+ e3+ a- b-")
+    fams.append(family("repO3", 4, [slot("O", "o", C.ix("p+ p- q+ q- a+ b+"), 2, 2 if q else 3, must=C.ix("p+ p- q+ q-")),
+                                     slot("O", "p", C.ix("q+ q- a+ b+ e2+"), 1, 2),
+                                     slot("O", "q", g4q, 1, 2)],
+                       kind="repeat", nsh=4 if q else 12))
+    ol = ["r+ s+", "r- s+", "r+ s-", "s- r-", "r+ s+ a+", "r+ q+ s+"] + ([] if q else ["r+ s+ r+", "r- s- r-", "b+ r+ s+"])
+    fams.append(family("repO4", 4, [listed("O", "o", ol),
+                                     slot("O", "r", C.ix("q+ q- a+ b+"), 1, 2, must=C.ix("q+ q-")),
+                                     slot("O", "s", C.ix("q+ q- a+ b+"), 1, 2, must=C.ix("q+ q-")),
+                                     slot("O", "q", C.ix("a+ b+ e1+ e2+") if q else g4q, 1, 2)],
+                       kind="repeat", nsh=4 if q else 12))
+    # F6b: the first item is an E line without direction (internal alignment) and the second a
+    # nested path: which way the edge is travelled is decided by where the nested path starts
+    ul = ["ei+ p+", "ei- p+", "ei+ p-", "ei- p-", "ei+ p+ a+", "p+ ei+", "p- ei-"] + ([] if q else ["ei+ p+ p+", "ei+ ei- p+"])
+    fams.append(family("undirO", 4, [listed("O", "o", ul),
+                                      slot("O", "p", C.ix("b+ d+ b- d- a+ c- e3+ e6+ e5- e2-") if q else
+                                           C.alph(SEGS, pm) + C.ix("e3+ e6+ e5- e2- e1- e5+ ei+ ei-"), 1, 2)],
+                       nsh=1 if q else 4))
+    # F7: a MULTI-LINE group that other groups mention, every interleaving of its lines with the
+    # lines of the groups that mention it (directly: t, w; through another group: w = t ...)
+    t2 = ((1, 1), (1, 1, 1))
+    pl = ["a+ b+ c+", "e1+ e3+", "c- b- a-"] + ([] if q else ["a+ e1+ b+ c+"])
+    fams.append(family("lateO", 4, [listed("O", "p", pl),
+                                     listed("O", "t", ["p+ d+", "p-", "d- p-"] + ([] if q else ["p+ p+"])),
+                                     listed("U", "w", ["p", "t a"] + ([] if q else ["p d"]))],
+                       split=2 if q else 3, splitmin=2, tagsets=t2, orders="all", nsh=3 if q else 12))
+    fams.append(family("lateU", 4, [listed("U", "u", ["a c", "a e5", "d b c"] + ([] if q else ["c w", "a b c d"])),
+                                     listed("U", "v", ["u", "u b"]),
+                                     listed("U", "w", ["v", "u v", "u d"])],
+                       split=2 if q else 3, splitmin=2, tagsets=t2, orders="all", nsh=1 if q else 8))
+    # F7b: the mentioning group is a multi-line group too (two slots with the same identifier)
+    fams.append(family("lateOO", 4, [listed("O", "p", ["a+ b+ c+"] + ([] if q else ["a+ e1+ b+ c+"])),
+                                      listed("O", "t", ["p+", "a- p-"] if q else ["p+", "p-", "a- p-"]),
+                                      listed("O", "t", ["d+", "d+ a+"])] + ([] if q else [listed("U", "w", ["t"])]),
+                       split=2, splitmin=2, tagsets=t2, orders="all", nsh=1 if q else 4))
     return fams
 
 
@@ -515,7 +563,8 @@ def run_families(fams, name):
         for sh in range(f["nsh"]):
             jobs.append((f, sh, "%s/%s-%d" % (name, f["name"], sh)))
     tlc.workdir(name)
-    heavy = ["nestO3", "nestO3-ends", "nestO2", "nestU-cyc", "nestU-paths", "splitO", "splitU"]   # slow per case: start them first
+    heavy = ["repO3", "repO4", "nestO3", "nestO3-ends", "nestO2", "nestU-cyc", "nestU-paths", "splitO", "splitU",
+             "lateO", "lateU"]   # slow per case or slow to enumerate: start them first
     jobs.sort(key=lambda j: heavy.index(j[0]["name"]) if j[0]["name"] in heavy else len(heavy))
     with MPool(processes=min(tlc.NCPU, len(jobs))) as mp:
         res = mp.map(shard_job, jobs, chunksize=1)
@@ -523,12 +572,11 @@ def run_families(fams, name):
 
 
 def check_c17(out, tier, seed):
-    selftest()
+    rejects = selftest(tolerant=True)
     fams = families(tier)
     res = run_families(fams, "groups-" + tier)
     tot = dict(cases=0, distinct=0, nontrivial=0, relaxed=0, mc=0, mcg=0, tv=0)
     hist, perfam = {}, {}
-    rejects = []
     for r in res:
         tot["cases"] += r["cases"]
         tot["distinct"] += r["distinct"]
@@ -629,9 +677,11 @@ def replay(prop, v, path):
 # --------------------------------------------------------------------------
 # binding: corrupted records must be rejected, the recorded ones accepted
 
-def selftest():
+def selftest(tolerant=False):
     """Hand-made cases (no TLC enumeration): the record of what gfapy did must be accepted as it
-    is, and rejected with the right clause after each corruption."""
+    is, and rejected with the right clause after each corruption.  tolerant (inside a check): a
+    recording that is rejected AS IT IS is a finding about the tree under test, not about the
+    machinery: it is returned (and reported as a violation), its corruptions are not judged."""
     C = CAT
     base = [
         # a path written out in full, cut into two lines with disjoint tags
@@ -643,12 +693,23 @@ def selftest():
         # the second line contradicts a tag of the first: refused, group unchanged
         {"g": 1, "arr": 1, "lines": [["O", "o", C.ix("a+ e1+"), 2], ["O", "o", C.ix("b+"), 4]],
          "cls": [["o", "O", "walk", False, False]], "from_tlc": False},
+        # a two-line path p mentioned by a set and a path that arrive between its lines
+        {"g": 4, "arr": 1, "lines": [["O", "p", C.ix("a+ b+"), 1], ["U", "w", C.ix("p"), 1], ["O", "t", C.ix("p+ d+"), 1],
+                                     ["O", "p", C.ix("c+"), 1]],
+         "cls": [["p", "O", "walk", True, False], ["w", "U", "set", True, False], ["t", "O", "walk", True, False]],
+         "from_tlc": False},
+        # a nested path walked twice (no path is nested in itself)
+        {"g": 4, "arr": 1, "lines": [["O", "q", C.ix("a+ b+"), 1], ["O", "o", C.ix("q+ q+"), 1]],
+         "cls": [["q", "O", "walk", True, False], ["o", "O", "walk", True, False]], "from_tlc": False},
+        # an internal alignment first, then a nested path that starts at its second segment
+        {"g": 4, "arr": 1, "lines": [["O", "p", C.ix("d+ a+"), 1], ["O", "o", C.ix("ei+ p+"), 1]],
+         "cls": [["p", "O", "walk", True, False], ["o", "O", "walk", True, False]], "from_tlc": False},
     ]
     gfapy = _load_gfapy()
     _limits()
     pool = project.Pool()
     recs = [run_case(gfapy, c, pool, i) for i, c in enumerate(base)]
-    want = {0: [], 1: [], 2: []}
+    want = {i: [] for i in range(len(base))}
 
     def mutant(i, fn, clause):
         r = copy.deepcopy(recs[i])
@@ -656,7 +717,9 @@ def selftest():
         fn(r)
         muts.append(r)
         want[r["id"]] = [clause]
+        origin[r["id"]] = i
     muts = []
+    origin = {}
 
     def swap_walk(r):
         w = r["q"][0]["a"]["w"]
@@ -724,9 +787,40 @@ def selftest():
     mutant(2, accept_contradiction, "C17.tags")
     mutant(2, merged_anyway, "C17.tags")
     mutant(2, tag_overwritten, "C17.tags")
+
+    def raises(k):
+        def fn(r):
+            for x in "abc":
+                r["q"][k][x] = {"r": "RuntimeError", "w": []}
+        return fn
+
+    def stale_walk(r):          # t as if p still were its first line: a+ e1+ b+, then d+ does not follow
+        for x in "abc":
+            r["q"][2][x] = {"r": "NotFoundError", "w": []}
+
+    def stale_set(r):           # w as if p still were its first line
+        for x in "abc":
+            r["q"][1][x]["w"] = [y for y in r["q"][1][x]["w"] if y["id"] in ("a", "b", "e1", "e2")]
+
+    def stale_walk_short(r):    # p itself answered from its first line only
+        r["q"][0]["a"]["w"] = r["q"][0]["a"]["w"][:3]
+        r["q"][0]["b"]["w"] = r["q"][0]["b"]["w"][:2]
+        r["q"][0]["c"]["w"] = r["q"][0]["c"]["w"][:1]
+
+    mutant(3, stale_walk, "C17.path-error-spurious")
+    mutant(3, stale_set, "C17.set")
+    mutant(3, stale_walk_short, "C17.path")
+    mutant(4, raises(1), "C17.path-error-spurious")
+    mutant(5, raises(1), "C17.path-error-spurious")
     rej, _ = validate_records(recs + muts, pool, tlc.workdir("groups-selftest"))
+    broken = [i for i in range(len(base)) if rej.get(i)] if tolerant else []
     for cid, w in want.items():
         got = rej.get(cid, [])
+        if cid in broken or origin.get(cid) in broken:
+            continue
         if (w and not set(w) <= set(got)) or (not w and got):
             raise tlc.MachineryError("C17 selftest: record %d expected clauses %s, TraceGroups gave %s" % (cid, w, got))
+    if tolerant:
+        return [{"fam": "selftest", "case": {k: base[i][k] for k in ("g", "arr", "lines", "cls")},
+                 "clauses": rej[i], "rec": recs[i]} for i in broken]
     return len(muts)
